@@ -6,7 +6,6 @@
 EXTENDS StrData, TLC, Json, IOUtils
 
 Obs == ndJsonDeserialize(IOEnv.OBS)
-ToSet(s) == {s[i] : i \in 1..Len(s)}
 
 RefOK(o, r) == r.got = ExpectedAt(o.secs[r.sec], r.off)
 BadRefs(o) == {k \in 1..Len(o.refs) : ~RefOK(o, o.refs[k])}
